@@ -161,18 +161,19 @@ func (a *agg) add(idx int, resp *Response) {
 	}
 }
 
-func (d *Driver) workerCmd(ctx context.Context, gomaxprocs int) *exec.Cmd {
+func (d *Driver) workerCmd(ctx context.Context, gomaxprocs int, initSeed uint64) *exec.Cmd {
 	cmd := exec.CommandContext(ctx, d.Exe, "worker")
 	racedir := filepath.Join(d.Work, "race")
 	os.MkdirAll(racedir, 0o755)
 	env := []string{}
 	for _, e := range os.Environ() {
-		if strings.HasPrefix(e, "GORACE=") || strings.HasPrefix(e, "GOMAXPROCS=") || strings.HasPrefix(e, "VERIF_PROBE=") {
+		if strings.HasPrefix(e, "GORACE=") || strings.HasPrefix(e, "GOMAXPROCS=") || strings.HasPrefix(e, "VERIF_PROBE=") || strings.HasPrefix(e, "VERIF_INIT_SEED=") {
 			continue
 		}
 		env = append(env, e)
 	}
 	env = append(env, "VERIF_PROBE="+d.probe)
+	env = append(env, fmt.Sprintf("VERIF_INIT_SEED=%d", initSeed)) // map order during package initialisation (0: sorted)
 	env = append(env, "GORACE=halt_on_error=0 exitcode=0 atexit_sleep_ms=0 log_path="+filepath.Join(racedir, "r"))
 	if gomaxprocs > 0 {
 		env = append(env, fmt.Sprintf("GOMAXPROCS=%d", gomaxprocs))
@@ -188,7 +189,16 @@ func (d *Driver) workerCmd(ctx context.Context, gomaxprocs int) *exec.Cmd {
 func (d *Driver) runRequests(reqs []*Request, gomaxprocs int) (resps []*Response, died bool, stderr string) {
 	ctx, cancel := context.WithTimeout(context.Background(), 10*time.Minute)
 	defer cancel()
-	cmd := d.workerCmd(ctx, gomaxprocs)
+	// the order of map iteration during package initialisation is part of the scenario: a function of its seed
+	var initSeed uint64
+	if len(reqs) > 0 && !reqs[0].GenOnly {
+		if reqs[0].Scenario != nil {
+			initSeed = reqs[0].Scenario.RunSeed | 1
+		} else {
+			initSeed = SplitMix(uint64(reqs[0].VerifSeed), uint64(reqs[0].Idx)*2654435761+99) | 1
+		}
+	}
+	cmd := d.workerCmd(ctx, gomaxprocs, initSeed)
 	var in bytes.Buffer
 	enc := json.NewEncoder(&in)
 	for _, r := range reqs {
